@@ -150,6 +150,11 @@ def judge(col: common.Collector, stream: List[Frame], ids: Sequence[int], base: 
             super().on_telegram_complete(telegram_idx, telegram_payload)
 
     sm = Logged(list(ids))
+    # the active decoder (answers first frames with flow control) processes the same frames: it
+    # must not raise either and must report what the passive machine reports
+    from odxtools.isotp_state_machine import IsoTpActiveDecoder
+    from .c12 import StubBus
+    active = IsoTpActiveDecoder(StubBus(), list(ids), [i + 0x100 for i in ids])
     env = {i: Envelope() for i in ids}
     suffix, suffix_exp = recovery_suffix(ids)
     fkinds = "+".join(sorted(set(f[0] for f in faults))) or "none"
@@ -168,6 +173,17 @@ def judge(col: common.Collector, stream: List[Frame], ids: Sequence[int], base: 
             bad("raises", f"{type(e).__name__}/{kind_of(data)}", f"frame {n} "
                 f"({cid:x}#{data.hex()}): {type(e).__name__}: {e}", n)
             return
+        try:
+            aout = [(rid, bytes(pl)) for rid, pl in active.decode_rx_frame(cid, data)]
+        except Exception as e:
+            bad("active-raises", f"{type(e).__name__}/{kind_of(data)}", f"frame {n} "
+                f"({cid:x}#{data.hex()}): active decoder: {type(e).__name__}: {e}", n)
+            return
+        if aout != out:
+            bad("active-differs", kind_of(data), f"frame {n} ({cid:x}#{data.hex()}): active decoder "
+                f"reported {aout}, passive {out}", n)
+            return
+        col.count("active-frames")
         if cid not in env:
             if out:
                 bad("fabricated", "unrelated-id", f"frame {n} on unmonitored id reported {out}", n)
@@ -188,7 +204,15 @@ def judge(col: common.Collector, stream: List[Frame], ids: Sequence[int], base: 
             return
     # recovery: a well-formed suffix must be reported exactly
     got: Dict[int, List[bytes]] = {i: [] for i in ids}
+    agot: Dict[int, List[bytes]] = {i: [] for i in ids}
     for n, (cid, data) in enumerate(suffix):
+        try:
+            for rid, pl in active.decode_rx_frame(cid, data):
+                agot.setdefault(rid, []).append(bytes(pl))
+        except Exception as e:
+            bad("recovery-raises", "active/" + type(e).__name__,
+                f"suffix frame {n}: active decoder: {type(e).__name__}: {e}", len(stream) + n)
+            return
         try:
             for rid, pl in sm.decode_rx_frame(cid, data):
                 got.setdefault(rid, []).append(bytes(pl))
@@ -197,6 +221,11 @@ def judge(col: common.Collector, stream: List[Frame], ids: Sequence[int], base: 
                 len(stream) + n)
             return
     for i in ids:
+        if agot[i] != suffix_exp[i]:
+            bad("recovery-failed", "active/" + (fkinds if len(faults) < 2 else "double"),
+                f"id {i:x}: active decoder: after the faulty stream the well-formed suffix gave "
+                f"{[x.hex()[:16] for x in agot[i]]}", len(stream))
+            return
         if got[i] != suffix_exp[i]:
             bad("recovery-failed", fkinds if len(faults) < 2 else "double",
                 f"id {i:x}: after the faulty stream the well-formed suffix gave "
